@@ -222,6 +222,8 @@ func genC15(r *rand.Rand, tier string, st *Stats) []Case {
 	// the sites this builder's analysis found, always
 	for _, s := range []string{"find all 'a' ( ) 'b'", "find all {'a'} = s 'b' s", "find all in 'b', digit , 'a'",
 		"find all in 'b', caseless 'c' , 'a'", "set t to transform return 1 + 2 end replace all 'a' with t",
+		"find all 'a' 'b'", "find all \"x\" \"y\" 'z'", "replace all 'a' with '<' '>' \"|\" \"|\"", "find all 'a' ('b') 'c' {'d'} = s",
+		"find all in 'a' , 'b'", "find all '' 'a'",
 		"find all", "replace all with 'x'", "set p to pattern 'a' begin return true end find all p",
 		"set t to transform begin if 1 < 2 then return 'x' else return 'y' end end replace all 'a' with t",
 		"find all at least 1 'a' fewest named n", "find all 'a' = x or 'b'", "find all not in 'a' to 'c' , 'x'",
@@ -274,6 +276,18 @@ func genC15(r *rand.Rand, tier string, st *Stats) []Case {
 					continue
 				}
 				add(p, p.src[:b]+f.text+p.src[b:], f.name)
+			}
+		}
+		// squeeze: a blank run between two tokens that are not words is REMOVED (whitespace is needed only to separate
+		// adjacent words): closing quote / bracket / comma on the left, opening quote / bracket / comma on the right
+		for si := 1; si+1 < len(spans); si++ {
+			w := spans[si]
+			if w.name != "WS" || spans[si-1].end != w.start || spans[si+1].start != w.end || w.start == 0 || w.end >= len(p.src) {
+				continue
+			}
+			lc, rc := p.src[w.start-1], p.src[w.end]
+			if strings.IndexByte("'\")}],", lc) >= 0 && strings.IndexByte("'\"({[,", rc) >= 0 {
+				add(p, p.src[:w.start]+p.src[w.end:], "squeeze")
 			}
 		}
 		// keyword case: all keywords upper, each mode on one sampled keyword
